@@ -74,6 +74,11 @@ def pool(thorough):
                                  "{ real w = x + 1.0; w <= 5.0; } or { real w = x - 1.0; w >= 5.0; }")))
     S.append(("or-stmt:locals-cost", ("or", [[rel(">=", Y, n(4)), rel("<=", add(Y, X), n(3))], [rel("<=", sub(Y, n(2)), n(0)), rel(">=", X, n(4))]], [n(1), n(2)],
                                       "{ real w = y; w >= 4.0; w + x <= 3.0; } [1.0] or { real w = y - 2.0; w <= 0.0; x >= 4.0; } [2.0]")))
+    # disjuncts that declare a local boolean (its two values must not force the disjunct that declares it)
+    S.append(("or-stmt:local-bools", ("or", [[rel(">=", X, n(1))], [rel("<=", X, n(0))]], None,
+                                      "{ bool c; x >= 1.0; } or { bool d; x <= 0.0; }")))
+    S.append(("or-stmt:local-bools-used", ("or", [[rel(">=", Y, n(3))], [rel("<=", Y, n(1))]], None,
+                                           "{ bool c; c; y >= 3.0; } or { bool c; !c; y <= 1.0; }")))
     if thorough:
         S.append(("or-stmt:3", ("or", [[rel("==", X, n(0))], [rel("==", X, n(1))], [rel("==", X, n(2))]], None)))
     return S
